@@ -4,6 +4,7 @@ import (
 	"encoding/json"
 	"errors"
 	"fmt"
+	"sort"
 
 	"verif/sim/core"
 	"verif/sim/refts"
@@ -34,6 +35,7 @@ type FilterScenario struct {
 	Skipper *SkipSpec        `json:"skipper,omitempty"`
 	Parser  *ParserSpec      `json:"parser,omitempty"`
 	Reader  world.ReaderPlan `json:"reader"`
+	Inserts []Insertion      `json:"inserts,omitempty"` // null / adaptation-only packets added to the stream
 }
 
 var errParserSentinel = errors.New("sim: packets parser failure")
@@ -75,6 +77,20 @@ func (filters) Generate(r *core.PRNG, tier string, idx int64) any {
 	cfg.BigPSI = false
 	sc := &FilterScenario{Model: GenModel(r, cfg)}
 	sc.Reader = genReaderPlan(r, []string{"seekable", "plain", "bufio"})
+	if r.Chance(1, 2) {
+		n := 0
+		for _, c := range packetCounts(sc.Model) {
+			n += c
+		}
+		k := r.Range(1, 4)
+		for i := 0; i < k; i++ {
+			in := Insertion{At: r.Intn(n + 1), Seed: r.Uint64(), Kind: "afonly", PID: sc.Model.Streams[r.Intn(len(sc.Model.Streams))].PID}
+			if r.Chance(1, 3) {
+				in.Kind, in.PID = "null", 0x1fff
+			}
+			sc.Inserts = append(sc.Inserts, in)
+		}
+	}
 	if idx%2 == 0 {
 		s := &SkipSpec{}
 		switch r.Pick(3, 2, 2, 3, 3, 2, 1, 1) {
@@ -183,9 +199,34 @@ func (filters) Execute(scAny any, keepLog bool) *core.Outcome {
 		out.Probe("model-unbuildable")
 		return out
 	}
-	npk := len(b.Packets)
+	// null and adaptation-only packets (no payload) belong to no unit but are packets like any
+	// other for the skipper
+	pkts := b.Packets
+	metas := b.Meta
+	if len(sc.Inserts) > 0 {
+		ins := append([]Insertion{}, sc.Inserts...)
+		sort.SliceStable(ins, func(a, c int) bool { return ins[a].At < ins[c].At })
+		pkts, metas = nil, nil
+		lastCC := map[uint16]uint8{}
+		j := 0
+		for i := 0; i <= len(b.Packets); i++ {
+			for j < len(ins) && ins[j].At <= i {
+				if ins[j].Kind == "null" || ins[j].Kind == "afonly" {
+					pkts = append(pkts, buildInsertion(ins[j], lastCC))
+					metas = append(metas, refts.PktMeta{Stream: -1})
+				}
+				j++
+			}
+			if i < len(b.Packets) {
+				pkts = append(pkts, b.Packets[i])
+				metas = append(metas, b.Meta[i])
+				lastCC[b.Meta[i].PID] = b.Meta[i].CC
+			}
+		}
+	}
+	npk := len(pkts)
 	out.Packets = int64(npk)
-	data := refts.Join(b.Packets)
+	data := refts.Join(pkts)
 	cfg := DemuxCfg{PacketSize: 188, Reader: sc.Reader}
 	plain := DemuxCfg{PacketSize: 188, Reader: world.ReaderPlan{Kind: "seekable"}}
 	shape := fmt.Sprint(len(sc.Model.Streams), npk > 12)
@@ -204,12 +245,15 @@ func (filters) Execute(scAny any, keepLog bool) *core.Outcome {
 		return out
 	}
 
+	if len(pkts) > len(b.Packets) {
+		out.Fire("payloadless-packets")
+	}
 	if s := sc.Skipper; s != nil {
 		out.Fire("skip-" + map[string]string{"pid": "pid", "cc": "cc", "pusi": "pusi", "af-rai": "af", "af-pcr": "af", "has-af": "af", "seq": "seq", "nth": "nth", "all": "all", "none": "none"}[s.Kind])
 		// reference: delete the selected packets
 		var filtered [][]byte
 		nskip := 0
-		for i, p := range b.Packets {
+		for i, p := range pkts {
 			dp, _ := refts.DecodePacket(p)
 			rai, pcr := false, false
 			if dp.AF != nil {
@@ -364,7 +408,10 @@ func (filters) Execute(scAny any, keepLog bool) *core.Outcome {
 		if sc.Skipper == nil {
 			// fault-free stream: the groups are exactly the generated units
 			wantGroups := map[uint16][][]string{}
-			for i, mt := range b.Meta {
+			for i, mt := range metas {
+				if mt.Stream < 0 {
+					continue
+				}
 				pkd := core.Dump(basePk[i].P)
 				l := wantGroups[mt.PID]
 				if mt.Index == 0 {
@@ -600,6 +647,11 @@ func (filters) Shrink(scAny any) []any {
 	if len(sc.Reader.Chunks) > 0 || sc.Reader.Kind != "seekable" || sc.Reader.EOFWithData {
 		c := *sc
 		c.Reader = world.ReaderPlan{Kind: "seekable"}
+		out = append(out, &c)
+	}
+	if len(sc.Inserts) > 0 {
+		c := *sc
+		c.Inserts = nil
 		out = append(out, &c)
 	}
 	if sc.Skipper != nil && sc.Parser != nil {
